@@ -58,6 +58,10 @@ CHECKS = {
    text="Complete enumeration of a bounded grammar of client byte streams (binary frames of all command types, flag products, value frames of every length/op/stage/flag on four kinds of existing values, boundary value operations, nested/truncated pipelines, CALL frames, every registered text command with 0..6 arguments, malformed RESP, all chunkings of short streams and 1-/2-cut splits of representative frames), each played against a fresh full node next to a witness connection; any panic in a server thread is a crash.",
    note="Trusted: instrumenter+runtime+vnet; the grammar bounds (no random/mutated streams claimed).",
    technique="bounded exhaustive input enumeration against the implementation under the deterministic runtime (panic = crash, witness-connection oracle)"),
+ "C10": dict(level="model_checking", design="4/C10",
+   text="All client request sequences to a depth, in binary and text protocol, are executed on twin two-node clusters of real node copies (leader + synced follower): directly against the leader and through the follower's port; replies and resulting states must agree; with the replication stream held the follower's own state must not change; forced non-leader states without a leader must refuse everything.",
+   note="Trusted: instrumenter+runtime+vnet, one copy of package server per node (own globals). Default schedule inside handlers.",
+   technique="bounded exhaustive enumeration of request sequences on multi-node instances of the implementation, differential oracle leader vs follower port"),
 }
 NA_DEFAULT = "check not built yet in this round (planned: see DESIGN.md section 4)"
 
